@@ -31,7 +31,8 @@ def kind_scope(*mods):
 PROPS = {
     "C10": {
         "rules": [r_panic.run, r_panic.run_errprop, r_panic.run_narrow_arith,
-                  kind_scope("dictionary::connector", "dictionary::mapper"), r_cand.unkcover],
+                  kind_scope("dictionary::connector", "dictionary::mapper"), r_cand.unkcover,
+                  r_panic.run_tok],
         "explanation": "PANIC: every potential panic or silent-wrap site (assert terminators for "
                        "bounds/overflow/division/shift, calls to unwrap/expect/panic!/assert!/"
                        "indexing/copy_from_slice/chunks/..., narrowing `as` casts) in the "
@@ -48,8 +49,10 @@ PROPS = {
                        "defaulted.",
         "level_text": "Static enumeration and discharge of panic sites: totality of the parsers "
                       "for every input, up to the audited table and opaque dependencies. The "
-                      "clause `accepted => tokenizes safely` is a value invariant of the lattice "
-                      "and is NOT decided (the tokenization path is not audited).",
+                      "clause `accepted => tokenizes safely` rests on value invariants of the "
+                      "lattice: its sites are enumerated too (TOKPANIC) and each is tied to the "
+                      "structural rule that establishes the invariant, but the invariants "
+                      "themselves are argued in the table, not proved.",
         "level_note": "Trusted: csv-core/crawdad/regex/bincode/std contracts; the reasons in "
                       "spec/panic_table.json (each names the invariant relied on).",
         "technique": "MIR panic-site enumeration over the call graph with guard-dominance "
@@ -196,7 +199,7 @@ PROPS = {
     },
     "C01": {
         "rules": [r_token.access, r_token.dispatch, r_cand.cand, r_cand.unkfall, r_viterbi.traceback,
-                  r_reset.run_tokens, r_panic.run_narrow_dict, r_cand.unkcover],
+                  r_reset.run_tokens, r_panic.run_narrow_dict, r_cand.unkcover, r_panic.run_tok],
         "explanation": "ACCESS: every Token accessor is a projection of the one stored (end, node) "
                        "pair and the sentence's offset table (ranges, surface, ids, costs, "
                        "feature); DISPATCH: each lexicon type is looked up in its own component "
@@ -219,7 +222,7 @@ PROPS = {
     "C02": {
         "rules": [r_viterbi.viterbi, r_viterbi.traceback, r_panic.run_narrow_lattice,
                   kind_scope("tokenizer", "connector", "lexicon::param", "unknown"),
-                  r_reset.run_tokens],
+                  r_reset.run_tokens, r_panic.run_costsum],
         "explanation": "VITERBI: insert_node/insert_eos take (argmin, min) from one search over "
                        "the complete predecessor list of the very start_node they store, with "
                        "cost(pred.right_id, own left_id), min_cost = best + word_cost, EOS "
@@ -368,14 +371,21 @@ _ADDED = {
     "C07": ("ROWRANGE as for C06 (the accessors used by cost()). NARROW over the connector "
             "functions: no narrowing cast and no 8/16-bit arithmetic on an id is left "
             "undischarged (id 65535 is a legal id).", "symbolic index-range shape rule"),
-    "C02": ("RESET (token scope): the lattice and result buffers are cleared over their whole "
+    "C02": ("COSTSUM: the i32 additions of path, connection and word costs on the tokenization "
+            "path are enumerated; none can be bounded statically and each is a recorded finding "
+            "(total_cost = accumulated cost holds only inside the 32-bit range). "
+            "RESET (token scope): the lattice and result buffers are cleared over their whole "
             "used width before each tokenization, so the recurrence never sees a node of an "
             "earlier sentence (a partial clear such as iter_mut().take(n) counts only when n is "
             "the length the buffer is grown to).", "MIR typestate dataflow"),
-    "C01": ("UNKCOVER: the builder must reject a char.def category that has no unk.def entry "
+    "C01": ("TOKPANIC: the panic-site audit applied to the functions below Worker/Token that the "
+            "builders do not reach (about 100 sites: discharged structurally, or tabled with the "
+            "invariant relied on and a re-verified guard: ids verified before use, lattice "
+            "shape, unk.def size). UNKCOVER: the builder must reject a char.def category that has no unk.def entry "
             "(otherwise a character of that category that no lexicon entry covers cannot start "
             "any candidate and tokenization panics).", "absence-of-guard rule"),
-    "C10": ("UNKCOVER as for C01 (`every reachable character able to start some candidate`). "
+    "C10": ("TOKPANIC as for C01 (second clause of C10: a returned dictionary tokenizes every "
+            "string without panicking or reading out of range). UNKCOVER as for C01 (`every reachable character able to start some candidate`). "
             "KIND over the connectors and the mapper (loop bounds and tables of the two sides "
             "are not crossed in the remapping loops). NARROW-ARITH: no overflow-checked arithmetic in an 8/16-bit type below "
             "Worker::tokenize / Token (ids up to u16::MAX are accepted by the builder). "
